@@ -94,6 +94,10 @@ func (s *sessionController) shouldLoadSession() shouldLoadSessionResult {
 	if s.state == PskExtInitialized {
 		return shouldSetPsk
 	}
+	if s.state == SessionTicketExtAllSet || s.state == PskExtAllSet {
+		// a previous BuildHandshakeState set the session and then failed before locking it
+		return shouldReturn
+	}
 	return shouldLoad
 }
 
@@ -273,7 +277,7 @@ func (s *sessionController) syncSessionExts() error {
 	uAssert(s.uconnRef.clientHelloBuildStatus == NotBuilt, "tls: checkSessionExts failed: we can't modify the session after the clientHello is built")
 	s.assertNotLocked("checkSessionExts")
 	s.assertHelloNotBuilt("checkSessionExts")
-	s.assertControllerState("checkSessionExts", NoSession, SessionTicketExtInitialized, PskExtInitialized)
+	s.assertControllerState("checkSessionExts", NoSession, SessionTicketExtInitialized, PskExtInitialized, SessionTicketExtAllSet, PskExtAllSet)
 	numSessionExt := 0
 	hasPskExt := false
 	for i, e := range s.uconnRef.Extensions {
